@@ -535,7 +535,8 @@ pub fn run_check(check: &dyn Erased, tier: Tier) -> i32 {
             .or_insert((*i, v.clone(), sc.clone()));
     }
     for (rule, (index, viol, sc)) in by_rule.iter().take(6) {
-        let (min_sc, execs) = shrink(check, sc.clone(), rule, 600);
+        let max_exec = if std::env::var("VERIF_NOSHRINK").is_ok() { 0 } else { 600 };
+        let (min_sc, execs) = shrink(check, sc.clone(), rule, max_exec);
         let msg = check
             .execute_json(&min_sc)
             .and_then(|r| r.violations.into_iter().find(|v| &v.rule == rule))
